@@ -11,7 +11,7 @@ RULE = ('cases = EAM and Finnis-Sinclair models over every ordered subset of 1..
         'element pairs (orientation patterns, listing orders) x [FS: density-entry subsets] x grids (nr, nrho incl. 2,3,4,5,7,8 so the '
         'last record holds 1..4 values, and a (cutoff, n) lattice sweep) x route {class, writeTABEAM*, Configuration.read, potable}; '
         'every case executed; non-trivial = >= 2 elements or >= 1 declared pair')
-RULE += '; label / foreign-pair models as C03 (incl. Fe2 / Fe10), title= strings starting with block keywords, assigned-after-construction and numpy-returning functions, lazily computed density mappings, density dictionaries with extra species, (cutoff, n) sweep'
+RULE += '; label / foreign-pair models as C03 (incl. Fe2 / Fe10), title= strings starting with block keywords, assigned-after-construction and numpy-returning functions, lazily computed density mappings, density dictionaries with extra species, (cutoff, n) sweep; values of 1e-127 .. 1e120; the grid itself: writeTABEAM / writeTABEAMFinnisSinclair given staircase functions with a step at every grid point float(i)*step (8 x 8 (step, rows) choices) - any other evaluation point changes an integer in the table'
 ASSUMPTIONS = [
     'TABEAM layout as DL_POLY reads it (mc/readers/eam.py): title, count, blocks pair/embe/dens with header "kind species n x0 x1" and exactly n values, 4 per record',
     'values printed with %f: tolerance 1 unit of the 6th decimal + 1e-9 relative',
@@ -81,6 +81,15 @@ def cases(tier):
         for m in EK.big_grid_models(fs):
             for route in (('cls', 'potable') if tier == 'quick' else ('cls', 'proc', 'cfg', 'potable')):
                 out.append(dict(m=m, route=route, target='DL_POLY_EAM_fs' if fs else 'DL_POLY_EAM', big=True))
+    for fs in (False, True):
+        for m in EK.extreme_models(fs)[:2]:          # values of 1e-127 .. 1e120 inside the tabulated range
+            for route in ('cls', 'potable'):
+                out.append(dict(m=m, route=route, target='DL_POLY_EAM_fs' if fs else 'DL_POLY_EAM'))
+    # the grid itself: staircase functions with a step at every grid point, every pairing of 8 (step, rows) choices for the two grids
+    for g1 in EK.GRID_EXACT:
+        for g2 in EK.GRID_EXACT:
+            for fs in (False, True):
+                out.append(dict(kind='grid-exact', rho=list(g1), r=list(g2), fs=fs))
     # Python API with density dictionaries holding more species than are tabulated (objects re-used from a larger system)
     for els in (['Al'], ['Cu', 'Al'], ['Fe', 'Al', 'Cu']):
         for extra in (['Ni'], ['Ni', 'Ag']):
@@ -172,7 +181,36 @@ def check_tabeam(m, route, text, fs):
     return viol, t
 
 
+def run_grid_exact(case):
+    """writeTABEAM / writeTABEAMFinnisSinclair are handed the steps themselves: row i of every block is the function at float(i)*step"""
+    import io
+    import atsim.potentials as ap
+    (drho, nrho), (dr, nr), fs = case['rho'], case['r'], case['fs']
+    pots, eam = EK.grid_exact_objects(nrho, drho, nr, dr, fs)
+    out = io.StringIO()
+    (ap.writeTABEAMFinnisSinclair if fs else ap.writeTABEAM)(nrho, drho, nr, dr, eam, pots, out)
+    viol = []
+    try:
+        t = RE.read_tabeam(out.getvalue())
+    except FormatError as e:
+        return dict(outcome='violation', nontrivial=True, evals=1, violations=[dict(sig='format-error', msg='unreadable TABEAM: %s' % e, detail={})])
+    n = 0
+    for b in t['blocks']:
+        step, cnt = (drho, nrho) if b['kind'] == 'embe' else (dr, nr)
+        got = [v for v, _u in b['values']]
+        n += len(got)
+        want = [float(i + 1) for i in range(cnt)]
+        if got != want:
+            i = [k for k, (a, c) in enumerate(zip(got, want)) if a != c][0] if len(got) == len(want) else min(len(got), len(want))
+            viol.append(dict(sig='grid-position:%s' % b['kind'], msg='%s block, step %r, %d points: row %d holds the staircase value %r, at %d*step = %r the staircase is %r (the function was evaluated at another separation)'
+                             % (b['kind'], step, cnt, i, got[i] if i < len(got) else None, i, float(i) * step, want[i] if i < len(want) else None), detail={}))
+            break
+    return dict(outcome='ok:grid-exact' if not viol else 'violation', nontrivial=True, evals=max(1, n), violations=viol)
+
+
 def run_case(case):
+    if case.get('kind') == 'grid-exact':
+        return run_grid_exact(case)
     m, route, tgt = case['m'], case['route'], case['target']
     text = EK.produce(m, tgt, route)
     viol, t = check_tabeam(m, route, text, m['fs'])
